@@ -21,7 +21,7 @@ import (
 )
 
 func TestMain(m *testing.M) {
-	vstat.Rule("TokenLimiter behind a (source, amount) header extractor under a frozen clock with random sub-second phase. Rate sets of 1-3 rates, periods from {1s,1.5s,2s,10s,1min,1h}, average 1-100, burst 1..5*average (the domain the statement guarantees). Histories are segment programs (k requests of amount a from source s spaced by gap g), gaps from {0,1ms,7ms,50ms,1/3s,1s,5s,12s,70s,700s, >10*period}, amounts 1-3 and occasionally > burst, 1-3 sources within capacity, up to ~600 requests spanning several entry lifetimes. Oracle: for every source, every rate and every pair of admitted requests i<=j: sum of amounts in [t_i,t_j] <= burst + floor((t_j-t_i)/tau) + 1, tau=floor(period/average), exact integer arithmetic. Also through TokenBucketSet.Consume directly, and concurrent first contact of one source. Non-trivial: >=1 rejection between two admissions and (history spans > 1 entry lifetime of a busy source, or an idle gap >= burst*tau, or a multi-rate set). A third of the limiters use the stock client.ip extractor (IPv4, IPv6, zoned IPv6 peers on changing ports: one address is one source). TestC03_Quota: volume quotas (periods 1 h-30 d, averages up to 4e9, uploads of up to 5e6 units every 1 ms-7 s) against the same bound. Sources may be on plans of their own through ExtractRates (slower plans, idle gaps of 12 s-2 min) and are bound by their own rates. TestC03_Reconfigure: RateSet.Add on the live default set mid-history (override of the 1 s rate, optional new 1 min rate): events after the change are bound by the new rates for a known and for a new source; optional shared option list with an ExtractRates that returns the empty set or fails, and a second limiter with generous defaults built from it afterwards.")
+	vstat.Rule("TokenLimiter behind a (source, amount) header extractor under a frozen clock with random sub-second phase. Rate sets of 1-3 rates, periods from {1s,1.5s,2s,10s,1min,1h}, average 1-100, burst 1..5*average (the domain the statement guarantees). Histories are segment programs (k requests of amount a from source s spaced by gap g), gaps from {0,1ms,7ms,50ms,1/3s,1s,5s,12s,70s,700s, >10*period}, amounts 1-3 and occasionally > burst, 1-3 sources within capacity, up to ~600 requests spanning several entry lifetimes. Oracle: for every source, every rate and every pair of admitted requests i<=j: sum of amounts in [t_i,t_j] <= burst + floor((t_j-t_i)/tau) + 1, tau=floor(period/average), exact integer arithmetic. Also through TokenBucketSet.Consume directly, and concurrent first contact of one source. Non-trivial: >=1 rejection between two admissions and (history spans > 1 entry lifetime of a busy source, or an idle gap >= burst*tau, or a multi-rate set). A third of the limiters use the stock client.ip extractor (IPv4, IPv6, zoned IPv6 peers on changing ports: one address is one source). TestC03_Quota: volume quotas (periods 1 h-30 d, averages up to 4e9, uploads of up to 5e6 units every 1 ms-7 s) against the same bound. Sources may be on plans of their own through ExtractRates (slower plans, idle gaps of 12 s-2 min) and are bound by their own rates. TestC03_Reconfigure: RateSet.Add on the live default set mid-history (override of the 1 s rate, optional new 1 min rate): events after the change are bound by the new rates for a known and for a new source; optional shared option list with an ExtractRates that returns the empty set or fails, and a second limiter with generous defaults built from it afterwards. TestC03_PlanSwitch: one source (stock request.header variable, optional extra lines of that header) whose rate set switches between two plans of the same periods per request (alternating, random, blocks); per period the admitted amount in every interval is at most maxBurst + T/minTau + maxTau/minTau + 1. Non-trivial: >= 1 rejection, >= 2 admissions and >= 1 switch or extra header line.")
 	vstat.Main(m.Run)
 }
 
@@ -656,5 +656,146 @@ func TestC03_Reconfigure(t *testing.T) {
 			t.Fatalf("a source first seen after the change to %v is not bound by it: %s", after, msg)
 		}
 		vstat.Case(fmt.Sprintf("reconf|%v|%v|%v|%v|%d|%d|%d", before, after, changed, shared, len(evA), len(evB), len(evNew)), changed && len(evB) > 1, []string{"rate-set-changed-in-place"}, map[string]any{"before": fmt.Sprint(before), "after": fmt.Sprint(after), "shared_options": shared})
+	})
+}
+
+// TestC03_PlanSwitch: the rate extractor may give the same source different rates on different
+// requests (a plan that changes with the endpoint, the time of day, an upgrade and a downgrade).
+// Both plans have the same periods; averages and bursts differ. Whatever the order of the
+// switches, the source is never admitted faster than the more generous of its two plans allows:
+// per period, with B = the larger burst, tau = the smaller time per token and TAU = the larger,
+// the amount admitted in [t1,t2] is at most B + (t2-t1)/tau + TAU/tau + 1 (the time a bucket has
+// not yet turned into tokens is less than TAU when the plan changes, and is then worth at most
+// TAU/tau tokens). Sources are identified by the stock "request.header.X-Key" variable; a client
+// may add further lines of that header (the variable is the header's value as Header.Get gives
+// it, the first line), which does not make it another source.
+func TestC03_PlanSwitch(t *testing.T) {
+	rapid.Check(t, func(t *rapid.T) {
+		periods := []time.Duration{rapid.SampledFrom([]time.Duration{time.Second, 2 * time.Second, 10 * time.Second}).Draw(t, "period")}
+		if rapid.IntRange(0, 2).Draw(t, "twoRates") == 0 {
+			periods = append(periods, time.Minute)
+		}
+		var planA, planB []gen.Rate
+		for i, p := range periods {
+			a := int64(rapid.IntRange(1, 40).Draw(t, "avgA")) * int64(1+i*5)
+			b := a
+			switch rapid.IntRange(0, 3).Draw(t, "avgB") {
+			case 0:
+				b = a + 1
+			case 1:
+				b = a * int64(rapid.IntRange(2, 4).Draw(t, "factor"))
+			case 2:
+				if a > 1 {
+					b = a - 1
+				}
+			}
+			planA = append(planA, gen.Rate{Period: p, Average: a, Burst: rapid.Int64Range(1, 2*a).Draw(t, "burstA")})
+			planB = append(planB, gen.Rate{Period: p, Average: b, Burst: rapid.Int64Range(1, 2*b).Draw(t, "burstB")})
+		}
+		setA, errA := gen.RateSet(planA)
+		setB, errB := gen.RateSet(planB)
+		if errA != nil || errB != nil {
+			t.Fatalf("rate sets refused: %v %v", errA, errB)
+		}
+		clock.Freeze(epoch.Add(time.Duration(rapid.Int64Range(0, int64(time.Second)-1).Draw(t, "phase"))))
+		defer clock.Unfreeze()
+		served := 0
+		extractor, err := utils.NewExtractor("request.header.X-Key")
+		if err != nil {
+			t.Fatal(err)
+		}
+		tl, err := ratelimit.New(http.HandlerFunc(func(w http.ResponseWriter, r *http.Request) { served++ }), extractor, setA,
+			ratelimit.ExtractRates(ratelimit.RateExtractorFunc(func(r *http.Request) (*ratelimit.RateSet, error) {
+				if r.Header.Get("X-Plan") == "b" {
+					return setB, nil
+				}
+				return setA, nil
+			})))
+		if err != nil {
+			t.Fatal(err)
+		}
+		// the generous envelope of the two plans
+		type env struct {
+			burst, tau, extra int64
+			period            time.Duration
+		}
+		var envs []env
+		for i := range planA {
+			e := env{burst: planA[i].Burst, tau: int64(planA[i].Tau()), period: planA[i].Period}
+			big := int64(planB[i].Tau())
+			if planB[i].Burst > e.burst {
+				e.burst = planB[i].Burst
+			}
+			if big < e.tau {
+				e.tau, big = big, e.tau
+			}
+			e.extra = (big + e.tau - 1) / e.tau
+			envs = append(envs, e)
+		}
+		pattern := rapid.SampledFrom([]string{"alternate", "alternate-ba", "random", "blocks", "a-only"}).Draw(t, "pattern")
+		extraLines := rapid.IntRange(0, 2).Draw(t, "extraHeaderLines") == 0
+		gaps := []time.Duration{0, time.Millisecond, 7 * time.Millisecond, 50 * time.Millisecond, 100 * time.Millisecond, 333 * time.Millisecond, time.Second,
+			planA[0].Tau(), planB[0].Tau(), planA[0].Tau() / 2, planB[0].Tau() / 2, planA[0].Tau() - 1, planB[0].Tau() + 1}
+		n := rapid.IntRange(20, 500).Draw(t, "requests")
+		gap := rapid.SampledFrom(gaps).Draw(t, "gap")
+		var events []adm
+		var now time.Duration
+		switches, rejected, lines := 0, 0, 0
+		last := ""
+		for i := 0; i < n; i++ {
+			if rapid.IntRange(0, 19).Draw(t, "regap") == 0 {
+				gap = rapid.SampledFrom(gaps).Draw(t, "gap2")
+			}
+			plan := "a"
+			switch pattern {
+			case "alternate":
+				plan = []string{"a", "b"}[i%2]
+			case "alternate-ba":
+				plan = []string{"b", "a"}[i%2]
+			case "random":
+				plan = rapid.SampledFrom([]string{"a", "b"}).Draw(t, "plan")
+			case "blocks":
+				plan = []string{"a", "b"}[(i/7)%2]
+			}
+			if last != "" && plan != last {
+				switches++
+			}
+			last = plan
+			req := httptest.NewRequest("GET", "http://x/", nil)
+			req.Header.Set("X-Key", "key-1")
+			if extraLines && rapid.Bool().Draw(t, "addLine") {
+				req.Header.Add("X-Key", "trace-"+strconv.Itoa(i))
+				lines++
+			}
+			req.Header.Set("X-Plan", plan)
+			before := served
+			tl.ServeHTTP(httptest.NewRecorder(), req)
+			if served == before+1 {
+				events = append(events, adm{now, 1})
+			} else {
+				rejected++
+			}
+			clock.Advance(gap)
+			now += gap
+		}
+		for _, e := range envs {
+			for i := range events {
+				for j := i; j < len(events); j++ {
+					T := int64(events[j].at - events[i].at)
+					if total, bound := int64(j-i+1), e.burst+T/e.tau+e.extra+1; total > bound {
+						t.Fatalf("plans A=%v B=%v (%s): %d admitted in [%v,%v], the more generous plan allows at most %d + %d + %d + 1 = %d per %v", planA, planB, pattern, total, events[i].at, events[j].at, e.burst, T/e.tau, e.extra, bound, e.period)
+					}
+				}
+			}
+		}
+		var cl []string
+		if switches > 0 {
+			cl = append(cl, "plan-switches")
+		}
+		if lines > 0 {
+			cl = append(cl, "extra-lines-of-the-source-header")
+		}
+		vstat.Case(fmt.Sprintf("switch|%v|%v|%s|%d|%v|%d", planA, planB, pattern, n, gap, lines), rejected > 0 && len(events) > 1 && (switches > 0 || lines > 0), cl,
+			map[string]any{"planA": fmt.Sprint(planA), "planB": fmt.Sprint(planB), "pattern": pattern, "requests": n, "admitted": len(events), "switches": switches, "extraHeaderLines": lines})
 	})
 }
